@@ -121,7 +121,8 @@ pub fn determined(table: &[(usize, u64)], k: usize) -> u64 {
 }
 
 fn check_pass(out: &mut CaseOut, cov: &mut Cov, ctx: &CaseCtx, vs: &ValidStream, cuts: &[usize], chunking: &str) -> bool {
-    let sink = SharedSink::new();
+    // the sink's behaviour (whole writes, short writes, a retryable interruption) must not matter
+    let sink = SharedSink::varied(case_hash(&[&vs.file]) ^ cuts.len() as u64, 1 << 17);
     let obs = sut::new_obs(u64::MAX);
     // flush() between the pieces (every third pass) must change nothing about what the sink holds
     let flush_between = (cuts.len() + vs.file.len()) % 3 == 0;
@@ -186,7 +187,7 @@ fn check_pass(out: &mut CaseOut, cov: &mut Cov, ctx: &CaseCtx, vs: &ValidStream,
 }
 
 fn check_prefix_finish(out: &mut CaseOut, cov: &mut Cov, vs: &ValidStream, n: usize, cuts: &[usize], chunking: &str) -> bool {
-    let sink = SharedSink::new();
+    let sink = SharedSink::varied(case_hash(&[&vs.file]) ^ (n as u64).wrapping_mul(31) ^ cuts.len() as u64, 1 << 17);
     let obs = sut::new_obs(u64::MAX);
     let run = streamdrv::drive(&vs.file[..n], &vs.options, cuts, &DriveOpts { flush_between: (n + cuts.len()) % 3 == 0, ..Default::default() }, &sink, &obs);
     out.evals += 1;
